@@ -24,6 +24,16 @@ pub fn run(ctx: &mut Ctx) {
             multi_store(ctx, case, &mut crng, k);
         }
     }
+    // the same with shapes in which only the *final* positions of the targets cross a byte-width boundary:
+    // a small store refers to the first entries (in insertion order) of a larger, sorted store registered
+    // after it (k = 1000, 1001) / before it (1002); the reference column must be sized for the final positions
+    for k in [1000u64, 1001, 1002] {
+        let case = (n + nm) as u64 + (k - 1000);
+        if ctx.wants(case) {
+            let mut crng = rng.fork(case);
+            multi_store(ctx, case, &mut crng, k);
+        }
+    }
     for case in 0..n as u64 {
         let mut crng = rng.fork(case);
         if !ctx.wants(case) {
@@ -123,10 +133,22 @@ type BE = jubako::creator::BasicEntry<&'static str, &'static str>;
 fn multi_store(ctx: &mut Ctx, case: u64, rng: &mut Rng, k: u64) {
     use jubako as jbk;
     use jbk::creator::schema;
-    let nstores = 2 + (k % 2) as usize;
+    let crossing = k >= 1000;
+    let nstores = if crossing { 2 } else { 2 + (k % 2) as usize };
     // sizes around the one-byte / two-byte position boundary
-    let sizes: Vec<usize> = (0..nstores).map(|s| match (k as usize + s) % 4 { 0 => 3 + rng.below(20) as usize, 1 => 257 + rng.below(60) as usize, 2 => 255 + rng.below(3) as usize, _ => 300 + rng.below(400) as usize }).collect();
+    let sizes: Vec<usize> = if crossing {
+        let small = 100 + rng.below(150) as usize;
+        let large = 600 + rng.below(300) as usize;
+        if k == 1002 { vec![large, small] } else { vec![small, large] }
+    } else {
+        (0..nstores).map(|s| match (k as usize + s) % 4 { 0 => 3 + rng.below(20) as usize, 1 => 257 + rng.below(60) as usize, 2 => 255 + rng.below(3) as usize, _ => 300 + rng.below(400) as usize }).collect()
+    };
     let mut sorted: Vec<bool> = (0..nstores).map(|_| rng.chance(1, 2)).collect();
+    if crossing {
+        // the large store is sorted; the small one is sorted in case 1001
+        sorted = if k == 1002 { vec![true, false] } else { vec![k == 1001, true] };
+    }
+    let k = if crossing { 2 } else { k }; // references: entry e of a store refers to entry e % size of the next one
     // a reference used as (first) sort key: store 0 is sorted on (p1, p0), p1 referring to entries of
     // store 1, which is registered — hence ordered — after it.  Store 0 is ordered while its
     // references still read the provisional (insertion) positions of their targets; what is
@@ -144,6 +166,11 @@ fn multi_store(ctx: &mut Ctx, case: u64, rng: &mut Rng, k: u64) {
         for i in (1..ks.len()).rev() {
             let j = rng.below(i as u64 + 1) as usize;
             ks.swap(i, j);
+        }
+        if crossing && sizes[s] >= 600 {
+            // insertion order = descending keys: the first entries inserted end up last
+            ks.sort();
+            ks.reverse();
         }
         keys.push(ks);
     }
